@@ -106,6 +106,11 @@ def keptCols (Tw : Mat) (cols : List Int) (m : Int) : List Nat :=
   let thr := listMax (used.map (colAbsMax Tw)) * (1 / 1000000)
   used.filter fun j => decide (colAbsMax Tw j > thr)
 
+/-- `_get_template_sparse` has no record: no stored column is kept.  The real code raises ValueError —
+`template_max.max()` of an empty array (model.py:944) when no column is in use, `np.argmax(amplitude)` of an empty
+array (model.py:956) when every column in use is all-zero. -/
+def sparseRaises (Tw : Mat) (cols : List Int) (m : Int) : Bool := (keptCols Tw cols m).isEmpty
+
 /-- `_get_template_sparse(t, unwhiten)`: `cols` = stored channel ids of the template (`m` = unused) -/
 def getTemplateSparse (wmi : Mat) (sc : Rat) (Tw : Mat) (cols : List Int) (m : Int) (unwh : Bool) : Record :=
   let keep := keptCols Tw cols m
